@@ -133,3 +133,92 @@ def mech_key_exception(prefix, exc, where=None):
     if where:
         k += ":" + str(where[2])
     return k
+
+
+UNDEF_EVENTS = ("read-of-undefined-value", "operand-not-a-value", "read-of-undeclared-local")
+
+
+def check_program(R, obs, name, module, fname, inputs, family, require_accept=True, optimize=False, tol=1e-9,
+                  extra_events=(), source=None):
+    """Compile `module` with the real compiler, run `fname` on every input on the real VM under the
+    observer, compare with RefSem.  Records violations in R.  Returns a dict:
+    source, accepted, runnable, compiled (diff.Compiled), runs [(RefRun|None, VMRun|None) per input], bad (count)."""
+    src = source if source is not None else print_module(module)
+    comp = Compiled(src, optimize=optimize)
+    out = {"source": src, "accepted": comp.out.accepted, "runnable": False, "compiled": comp, "runs": [], "bad": 0}
+    R.count("programs")
+    if not comp.out.accepted:
+        R.count("rejected")
+        if require_accept:
+            rj = comp.out.reject
+            R.violation("rejected:%s:%s:%s" % (family, rj["name"], rj["cls"]),
+                        "well-typed program rejected by %s (%s %s)" % (rj["name"], rj["cls"], rj["msg"][:80]),
+                        {"sources": {"main": src}, "case": name, "reject": rj})
+            out["bad"] += 1
+        return out
+    if not comp.runnable:
+        exc = comp.out.post_exc or comp.link_exc
+        R.violation("compile-crash:%s:%s:%s" % (family, exc["cls"], exc.get("where")),
+                    "accepted program fails after the front end: %s %s" % (exc["cls"], exc["msg"][:80]),
+                    {"sources": {"main": src}, "case": name, "exc": exc})
+        out["bad"] += 1
+        return out
+    out["runnable"] = True
+    gnames = [n for _, n in module.globals]
+    for args, gl in inputs:
+        ref = run_ref(module, fname, args, gl)
+        R.evaluations += 1
+        if ref.status != "ok":
+            R.count("dropped_" + ref.status)
+            out["runs"].append((ref, None))
+            continue
+        vm = run_vm(comp, fname, args, gl, obs, vm_budget(ref.steps))
+        out["runs"].append((ref, vm))
+        R.count("vm_runs")
+        R.count("vm_instructions", vm.steps)
+        if vm.harness:
+            R.inconclusive.append("observer error: " + vm.harness[0])
+        bad = compare(ref, vm, gnames, tol)
+        watch = UNDEF_EVENTS + tuple(extra_events)
+        for ev in vm.events:
+            if ev["kind"] in watch and bad is None:
+                bad = "monitor: %s at %s" % (ev["kind"], ev)
+        if bad is not None:
+            out["bad"] += 1
+            if vm.status == "exception":
+                key = "vm-exception:%s:%s:%s" % (family, vm.exc["cls"], vm.where[2] if vm.where else "?")
+            elif vm.status == "nonterminating":
+                key = "nonterminating:%s" % family
+            elif bad.startswith("monitor:"):
+                key = "monitor:%s:%s" % (family, bad.split()[1])
+            else:
+                key = "mismatch:%s" % family
+            R.violation(key, "%s: %s" % (name, bad),
+                        {"sources": {"main": src}, "case": name, "function": fname, "optimize": optimize,
+                         "inputs": {"args": args, "globals": gl},
+                         "expected": {"value": ref.value, "globals": ref.globals},
+                         "observed": {"status": vm.status, "value": vm.value, "globals": vm.globals, "exc": vm.exc},
+                         "events": vm.events})
+    for o in obs.ops_run:
+        R.add_to("opcodes", o)
+    return out
+
+
+def replay_program(case):
+    """generic replay of a violation recorded by check_program"""
+    src = case["sources"]["main"]
+    comp = Compiled(src, optimize=bool(case.get("optimize")))
+    detail = {"gate": comp.out.gate, "reject": comp.out.reject, "post": comp.out.post_exc}
+    if not comp.runnable:
+        return True, detail
+    if "inputs" not in case:
+        return False, detail
+    obs = vmobs.Observer(frames=True)
+    vm = run_vm(comp, case["function"], case["inputs"]["args"], case["inputs"]["globals"], obs, 2000000)
+    detail.update({"status": vm.status, "value": vm.value, "globals": vm.globals, "exc": vm.exc,
+                   "expected": case.get("expected"), "events": vm.events})
+    exp = case.get("expected") or {}
+    ok = vm.status == "ok" and sem.values_equal(exp.get("value"), vm.value) and \
+        all(sem.values_equal(v, vm.globals.get(k)) for k, v in (exp.get("globals") or {}).items())
+    bad_events = [e for e in vm.events if e["kind"] in UNDEF_EVENTS or e["kind"].startswith("caller-")]
+    return (not ok) or bool(bad_events), detail
